@@ -8,6 +8,7 @@
   concatenation/conversion) allocate nothing.
 -/
 import Gvlean.Props.C07
+import Gvlean.Proofs.Template
 
 namespace Props
 open Go Gen Proofs
@@ -29,5 +30,14 @@ theorem c19_only_failing_branches (d : Decl) (v : Val) (es : List Spec.Entry) (h
     (hv : Spec.violated d v = some es) : allocs (exec (gen d) bg (some v)) = 2 * es.length := by
   rw [c07 d v es hc hv, toOutcome]
   cases es <;> simp [allocs]
+
+/-- REGENERATED TIE: in the template as re-extracted from /repo on this run the allocating constructs (the copy boxed
+    into `Value`, `append`) occur only inside the `if COND { … }` of a check, and the function returns `errs` only when
+    `len(errs) > 0` — the allocation sites `allocs` counts -/
+theorem c19_template :
+    (∃ pre post, Facts.tmplTokens =
+      pre ++ (["{{range .Validators}}", "{{if ne .Validate \"\"}}"] ++ Gen.Tmpl.checkForm ++ ["{{end}}", "{{end}}"]) ++ post) ∧
+    (∃ pre, Facts.tmplTokens = pre ++ Gen.Tmpl.tail) :=
+  ⟨Proofs.template_check, Proofs.template_tail⟩
 
 end Props
